@@ -9,6 +9,7 @@ package frag
 import (
 	"bytes"
 	"fmt"
+	"io"
 	"sort"
 	"sync"
 	"testing"
@@ -45,16 +46,21 @@ type Msg struct {
 
 type Case struct {
 	MTU       int      `json:"mtu"`
-	Frag      bool     `json:"frag"`             // sender: IsFragmentationEnabled
-	InFaceInd bool     `json:"ifi,omitempty"`    // sender: IsIncomingFaceIndicationEnabled
-	LocalCong bool     `json:"lcong,omitempty"`  // sender's queue is congested: it adds its own mark
-	RxThreads int      `json:"rxt"`              // forwarding threads at the receiver
+	Frag      bool     `json:"frag"`              // sender: IsFragmentationEnabled
+	InFaceInd bool     `json:"ifi,omitempty"`     // sender: IsIncomingFaceIndicationEnabled
+	LocalCong bool     `json:"lcong,omitempty"`   // sender's queue is congested: it adds its own mark
+	RxThreads int      `json:"rxt"`               // forwarding threads at the receiver
 	RxLocal   bool     `json:"rxlocal,omitempty"` // receiver face has local scope
 	Msgs      []Msg    `json:"msgs"`
 	Mode      string   `json:"mode"`           // id | rev | rr | keys
 	Keys      []uint32 `json:"keys,omitempty"` // mode keys: frames are fed in stable order of Keys[i%len]
 	Dup       int      `json:"dup,omitempty"`  // >0: frame (Dup-1)%n is fed twice, second copy at DupAt%(n+1)
 	DupAt     int      `json:"dupat,omitempty"`
+	// Stream non-empty: the receiver is a stream face -- the frames (in receive order) are
+	// concatenated and go through readTlvStream in reads of these sizes (cycled; <=0: as
+	// much as offered), whose callback is the link service, exactly as the TCP / Unix
+	// transports do.
+	Stream []int `json:"stream,omitempty"`
 }
 
 // ---------------------------------------------------------------------------- set-up
@@ -75,9 +81,10 @@ func setup() {
 type delivery struct {
 	thread   int
 	interest bool
-	raw      []byte
+	raw      []byte // copy taken at the moment of delivery
 	tok      []byte
 	cong     *uint64
+	pkt      *defn.Pkt // what the forwarding thread holds on to and processes later
 }
 
 type recThread struct {
@@ -89,7 +96,7 @@ func (r *recThread) String() string        { return fmt.Sprintf("rec-thread-%d",
 func (r *recThread) GetNumPitEntries() int { return 0 }
 func (r *recThread) GetNumCsEntries() int  { return 0 }
 func (r *recThread) rec(p *defn.Pkt, interest bool) {
-	d := delivery{thread: r.id, interest: interest, raw: append([]byte{}, p.Raw...), tok: append([]byte{}, p.PitToken...)}
+	d := delivery{thread: r.id, interest: interest, raw: append([]byte{}, p.Raw...), tok: append([]byte{}, p.PitToken...), pkt: p}
 	if p.CongestionMark != nil {
 		v := *p.CongestionMark
 		d.cong = &v
@@ -202,6 +209,33 @@ func order(c Case, perMsg []int) []int {
 		}
 	}
 	return idx
+}
+
+type chunkReader struct {
+	data   []byte
+	off    int
+	chunks []int
+	i      int
+}
+
+func (r *chunkReader) Read(p []byte) (int, error) {
+	if r.off >= len(r.data) {
+		return 0, io.EOF
+	}
+	if len(p) == 0 {
+		return 0, io.ErrShortBuffer
+	}
+	n := r.chunks[r.i%len(r.chunks)]
+	r.i++
+	if n <= 0 || n > len(p) {
+		n = len(p)
+	}
+	if n > len(r.data)-r.off {
+		n = len(r.data) - r.off
+	}
+	copy(p, r.data[r.off:r.off+n])
+	r.off += n
+	return n, nil
 }
 
 func eqMark(a, b *uint64) bool {
@@ -459,18 +493,49 @@ func execC10(c Case) (res evid.Result) {
 		cls["order:non-identity"] = true
 	}
 
-	for pos, v := range ord {
-		var perr error
+	if len(c.Stream) == 0 {
+		for pos, v := range ord {
+			var perr error
+			func() {
+				defer func() {
+					if r := recover(); r != nil {
+						perr = fmt.Errorf("panic in handleIncomingFrame: %v", r)
+					}
+				}()
+				recv.VerifHandleIncomingFrame(all[v])
+			}()
+			if perr != nil {
+				return fail("receive position %d (frame %d of msg %d): %v", pos, v, owner[v], perr)
+			}
+		}
+	} else {
+		cls["receiver:stream-face"] = true
+		var stream []byte
+		for _, v := range ord {
+			stream = append(stream, all[v]...)
+		}
+		rd := &chunkReader{data: stream, chunks: c.Stream}
+		var perr, ret error
 		func() {
 			defer func() {
 				if r := recover(); r != nil {
-					perr = fmt.Errorf("panic in handleIncomingFrame: %v", r)
+					perr = fmt.Errorf("panic in readTlvStream/handleIncomingFrame: %v", r)
 				}
 			}()
-			recv.VerifHandleIncomingFrame(all[v])
+			ret = face.VerifReadTlvStream(rd, recv.VerifHandleIncomingFrame, nil)
 		}()
 		if perr != nil {
-			return fail("receive position %d (frame %d of msg %d): %v", pos, v, owner[v], perr)
+			return fail("stream receiver: %v", perr)
+		}
+		if ret != nil || rd.off != len(stream) {
+			return fail("stream receiver: readTlvStream returned %v after %d of %d bytes", ret, rd.off, len(stream))
+		}
+	}
+	// a forwarding thread processes the packet after the link service has moved on: what it
+	// holds must still be what was delivered
+	for k, d := range sink {
+		if !bytes.Equal(d.pkt.Raw, d.raw) {
+			return fail("delivery %d: the packet's bytes changed after it was handed to the forwarding thread (receive buffer reused)", k)
 		}
 	}
 
@@ -648,6 +713,9 @@ func genCase(t *rapid.T) Case {
 		}
 		c.Keys = rapid.SliceOfN(rapid.Uint32Range(0, 15), k, k).Draw(t, "keys")
 	}
+	if rapid.IntRange(0, 3).Draw(t, "viaStream") == 0 {
+		c.Stream = rapid.SliceOfN(rapid.SampledFrom([]int{1, 3, 7, 50, 100, 127, 1000, 1500, 8800, -1}), 1, 4).Draw(t, "stream")
+	}
 	if rapid.IntRange(0, 4).Draw(t, "dup") == 0 {
 		c.Dup = rapid.IntRange(1, 1000).Draw(t, "dupIdx")
 		c.DupAt = rapid.IntRange(0, 1000).Draw(t, "dupAt")
@@ -655,7 +723,7 @@ func genCase(t *rapid.T) Case {
 	return c
 }
 
-const ruleC10 = "1-3 packets (Data/Interest of an exact drawn size, biased to the one-frame boundary and to multiples of the fragment payload) sent through the real link-service send path at a drawn MTU 128..8800 with drawn options (fragmentation on/off, forwarder PIT token of 0/6/other length independent of the packet's own token, congestion mark, incoming-face indication, locally added congestion mark), all frames fed to a second link service in a drawn permutation (optionally one fragment twice). Non-trivial: >=1 packet sent as >=2 fragments and a non-identity receive order, or frames of >=2 packets interleaved"
+const ruleC10 = "1-3 packets (Data/Interest of an exact drawn size, biased to the one-frame boundary and to multiples of the fragment payload) sent through the real link-service send path at a drawn MTU 128..8800 with drawn options (fragmentation on/off, forwarder PIT token of 0/6/other length independent of the packet's own token, congestion mark, incoming-face indication, locally added congestion mark), all frames fed to a second link service in a drawn permutation (optionally one fragment twice), directly or -- a quarter of the cases -- as a byte stream through readTlvStream in drawn read sizes (stream face), the delivered packets being compared again after the receiver has moved on. Non-trivial: >=1 packet sent as >=2 fragments and a non-identity receive order, or frames of >=2 packets interleaved"
 
 func TestC10Frag(t *testing.T) {
 	rec := evid.New("C10", "TestC10Frag", ruleC10)
